@@ -100,6 +100,8 @@ def _paint(ch, attrs, classes):
         attrs["color"] = ch.choice(["red", "#00f", "lime"])
     if ch.coin(0.04):
         attrs["display"] = "none"
+    if ch.coin(0.03):
+        attrs["vector-effect"] = "non-scaling-stroke"
     if ch.coin(0.35):
         attrs["transform"] = ch.choice(TRANSFORMS)
 
